@@ -4,11 +4,12 @@ set -e
 export CARGO_NET_OFFLINE=true
 mkdir -p /verif/.target /verif/.work /verif/evidence /verif/replays
 cd /verif/harness
-cargo build --release -p vc-front -p vc-sim -p vc-cli &
-P1=$!
 /verif/build_cli.sh &
 P2=$!
-wait $P1
-wait $P2
-cargo build --release -p vc-aig
+# one crate at a time (shared dependencies are built once); a crate that does
+# not build only disables its own checks (they then report exit 2)
+for b in vc-front vc-eval vc-doc vc-engines vc-sv vc-loop vc-drv vc-proj vc-fault vc-ls vc-synth vc-dep vc-crash vc-aig; do
+  cargo build --release -p $b || echo "WARNING: $b did not build"
+done
+wait $P2 || echo "WARNING: veryl CLI did not build"
 echo "setup done"
